@@ -577,7 +577,7 @@ theorem spec_redirect (tr : Transport) (cfg : Cfg) (acc : Accept) (f : Failure) 
     cases h1 : cfg.noSuccess <;> cases h2 : f.err.redirectsNoSuccess <;> simp
     exact redirectsNoSuccess_mem h2 hm
   simp only [Spec.ok, hadm, hns, hg, Bool.true_and]
-  simp [Spec.bodyOk, errorHeaderNames]
+  simp [Spec.bodyOk, errorHeaderNames, Spec.wwwValues]
 
 theorem spec_respond (tr : Transport) (cfg : Cfg) (acc : Accept) (f : Failure) (c : Class)
     (g : Option Nat) (hg : Spec.grpcFits tr g = true) (ha : f.err.action = .respond c) :
@@ -632,7 +632,24 @@ theorem spec_respond (tr : Transport) (cfg : Cfg) (acc : Accept) (f : Failure) (
     rcases List.mem_append.mp hkv with hc | hb
     · obtain ⟨v, hv, rfl⟩ := List.mem_map.mp hc; simp [hv]
     · rcases hkeys kv hb with h | h <;> rw [h] <;> simp
-  simp only [Spec.ok, hadm, hns, hbody, hnames, hwww, hg, Bool.true_and]
+  have hvals : Spec.wwwValues ⟨tr.translator.code cfg c,
+      (f.challenge.map fun v => ("Www-Authenticate", v)) ++ bodyHeaders tr.translator (tr.translator.body cfg acc),
+      tr.translator.body cfg acc, g⟩ = f.challenge := by
+    simp only [Spec.wwwValues, List.filterMap_append, List.filterMap_map]
+    have h1 : List.filterMap ((fun kv : String × String => if kv.1 == "Www-Authenticate" then some kv.2 else none) ∘
+        fun v => ("Www-Authenticate", v)) f.challenge = f.challenge := by
+      have hfun : ((fun kv : String × String => if kv.1 == "Www-Authenticate" then some kv.2 else none) ∘
+          fun v => ("Www-Authenticate", v)) = some := by
+        funext v; simp
+      rw [hfun, List.filterMap_some]
+    have h2 : List.filterMap (fun kv : String × String => if kv.1 == "Www-Authenticate" then some kv.2 else none)
+        (bodyHeaders tr.translator (tr.translator.body cfg acc)) = [] := by
+      rw [List.filterMap_eq_nil_iff]
+      intro kv hkv
+      rcases hkeys kv hkv with h | h <;> rw [h] <;> simp
+    rw [h1, h2, List.append_nil]
+  simp only [Spec.ok, hadm, hns, hbody, hnames, hwww, hg, hvals, Bool.true_and]
+  simp
 
 theorem Spec.grpcFits_redirect (tr : Transport) : Spec.grpcFits tr (tr.translator.grpcCodes.map (·.2)) = true := by
   cases tr <;> rfl
@@ -744,5 +761,53 @@ theorem respond_redirect_leaf (tr : Transport) (cfg : Cfg) (acc : Accept) (c : I
   unfold Translator.respond
   rw [tr_classify, action_redirect_leaf]
   rfl
+
+/-! ### error handler pipeline -/
+
+theorem handleError_skip (hs₁ : List (Cel × Handler)) (hf : ∀ p ∈ hs₁, p.1 = .fails)
+    (rest : List (Cel × Handler)) (cause : Err) (ctx : Ctx) :
+    handleError (hs₁ ++ rest) cause ctx = handleError rest cause ctx := by
+  induction hs₁ with
+  | nil => rfl
+  | cons p ps ih =>
+    obtain ⟨c, h⟩ := p
+    have hc : c = .fails := hf (c, h) List.mem_cons_self
+    subst hc
+    simp only [List.cons_append, handleError]
+    exact ih (fun q hq => hf q (List.mem_cons_of_mem _ hq))
+
+theorem exec_sets_error (h : Handler) (cause : Err) (ctx : Ctx) :
+    ∃ e, (h.exec cause ctx).pipelineError = some e := by
+  cases h <;> simp [Handler.exec, redirectExec, wwwAuthenticateExec]
+
+theorem handleError_fails (hs : List (Cel × Handler)) (cause : Err) (ctx : Ctx) :
+    (∃ e, (handleError hs cause ctx).2 = some e) ∨
+      ((handleError hs cause ctx).2 = none ∧ ∃ e, (handleError hs cause ctx).1.pipelineError = some e) := by
+  induction hs with
+  | nil => exact Or.inl ⟨cause, rfl⟩
+  | cons p ps ih =>
+    obtain ⟨c, h⟩ := p
+    cases c with
+    | error => exact Or.inl ⟨.foreign, rfl⟩
+    | fails => simpa [handleError] using ih
+    | holds => exact Or.inr ⟨rfl, exec_sets_error h cause ctx⟩
+
+theorem serve_ne_allowed_of_error (tr : Transport) (cfg : Cfg) (acc : Accept) (ctx : Ctx) (e : Err)
+    (h : ctx.pipelineError = some e) : serve tr.translator cfg acc ctx ≠ .allowed := by
+  simp only [serve, finalize, h, Option.map_some]
+  exact respond_ne_allowed tr cfg acc _
+
+theorem serveFailure_ne_allowed (tr : Transport) (cfg : Cfg) (acc : Accept) (hs : List (Cel × Handler))
+    (cause : Err) (ctx : Ctx) : serveFailure tr.translator cfg acc hs cause ctx ≠ .allowed := by
+  unfold serveFailure
+  rcases handleError_fails hs cause ctx with ⟨e, he⟩ | ⟨hn, e, he⟩
+  · cases hh : handleError hs cause ctx with
+    | mk c o => rw [hh] at he; simp only at he; subst he; exact respond_ne_allowed tr cfg acc _
+  · cases hh : handleError hs cause ctx with
+    | mk c o =>
+      rw [hh] at hn he; simp only at hn he; subst hn
+      exact serve_ne_allowed_of_error tr cfg acc c e he
+
+theorem action_foreign : Err.foreign.action = .respond .internal := by decide
 
 end Heimdall.ErrMap
